@@ -12,6 +12,11 @@ open JediModel.Text JediModel.Tree JediModel.Refactor JediModel.Diff
 
 abbrev parts := JediModel.Gen.C06.expressionParts
 
+/-- the parenthesisation rule of `inline`, every component read from the source by the translator -/
+abbrev rule : ParenRule :=
+  ⟨Gen.C06.expressionParts, Gen.C06.inlineParensExtraParents, Gen.C06.inlineParensDictDoubleStar,
+   Gen.C06.inlineParensAttributeSlot⟩
+
 /-! ## inline: refuse or rewrite exactly the references and the definition -/
 
 /-- the refusal messages of the model are the ones in the source, in source order -/
@@ -21,9 +26,9 @@ theorem inline_refusal_messages : refusals = Gen.C06.inlineRefusals := by decide
 attribute reference, its trailer and the nodes in front of it), the defining statement and
 (maybe) the leaf after it — nothing else is rewritten -/
 theorem inline_refuses_or_rewrites (names : List NameInfo) (d : DefInfo) :
-    (∃ msg, Refactor.inline parts names d = .error msg) ∨
-    (∃ m, Refactor.inline parts names d = .ok m ∧ ∀ k ∈ keysOf m, k ∈ allowedKeys names d) := by
-  cases hres : Refactor.inline parts names d with
+    (∃ msg, Refactor.inline rule names d = .error msg) ∨
+    (∃ m, Refactor.inline rule names d = .ok m ∧ ∀ k ∈ keysOf m, k ∈ allowedKeys names d) := by
+  cases hres : Refactor.inline rule names d with
   | error msg => exact Or.inl ⟨msg, rfl⟩
   | ok m =>
     refine Or.inr ⟨m, rfl, ?_⟩
@@ -54,9 +59,11 @@ theorem inline_refuses_or_rewrites (names : List NameInfo) (d : DefInfo) :
 
 /-- non-vacuity: `x = 1 + 2 ; y = x * 3` is rewritten (reference 7 parenthesised, statement 1
 and the newline 5 removed) -/
-example : (match Refactor.inline parts
-    [⟨"statement", true, true, 2, [], "expr_stmt", false, 1, false, [], []⟩,
-     ⟨"statement", true, false, 7, " ".toList, "term", false, 6, false, [], []⟩]
+example : (match Refactor.inline rule
+    [{ apiType := "statement", hasTree := true, isDef := true, id := 2, pfx := [], parentType := "expr_stmt",
+       parentNext := false, parentId := 1, dotTrailer := false, firstPfx := [], before := [] },
+     { apiType := "statement", hasTree := true, isDef := false, id := 7, pfx := " ".toList, parentType := "term",
+       parentNext := false, parentId := 6, dotTrailer := false, firstPfx := [], before := [] }]
     ⟨"expr_stmt", 1, 1, "operator", "=".toList, "=".toList, 0, [], "arith_expr", "1 + 2".toList,
       [], 5, [], "newline", "\n".toList⟩ with
     | .ok m => some m | .error _ => none)
@@ -64,8 +71,16 @@ example : (match Refactor.inline parts
 
 /-! ## parentheses -/
 
-/-- the rows of the table where `inline` adds no parentheses although the grammar needs them -/
-def excludedRows : List (String × String) := [
+/-- the source has (at least) the parenthesisation rule of
+proposed_fixes/c06-1-inline-parenthesize-slots.diff -/
+def fixedShape : Bool :=
+  originalParts.all (fun x => parts.contains x) &&
+  fixExtra.all (fun x => Gen.C06.inlineParensExtraParents.contains x) &&
+  Gen.C06.inlineParensDictDoubleStar
+
+/-- the rows of the table where the ORIGINAL `inline` adds no parentheses although the grammar needs
+them (F7: `ternary-*`/`test`, F8: `star-expr`/`or_test`, ...) -/
+def excludedRowsOriginal : List (String × String) := [
   ("star-expr", "lambdef"), ("star-expr", "test"), ("star-expr", "or_test"),
   ("star-expr", "and_test"), ("star-expr", "not_test"), ("star-expr", "comparison"),
   ("dict-dstar", "lambdef"), ("dict-dstar", "test"), ("dict-dstar", "or_test"),
@@ -75,34 +90,79 @@ def excludedRows : List (String × String) := [
   ("comp-iter", "lambdef"), ("comp-iter", "test"),
   ("comp-if", "lambdef"), ("comp-if", "test")]
 
-/- FULL (false of the unchanged code, see `excluded_rows_are_counterexamples`):
-   ∀ c ∈ allCtx, ∀ r ∈ allRhs, needsParens c r → jediParens parts r.type c.parent c.trailerNext -/
+/-- the excluded rows for the source as it is: none once the rule has the fixed shape -/
+def excludedRows : List (String × String) := if fixedShape then [] else excludedRowsOriginal
 
-/-- over the whole table (58 slots × 20 kinds of right-hand side): wherever the grammar needs
-parentheses `inline` adds them — except in the excluded rows -/
+/-- the excluded rows are exactly the unsound rows of the rule found in the source (the one
+evaluation of the whole table, 58 slots × 20 kinds of right-hand side, against the translated rule;
+any other edit of the condition changes the left-hand side and breaks this) -/
+theorem excluded_rows_exact : (unsoundPairs rule).map rowName = excludedRows := by
+  decide +kernel
+
+/-- FULL statement, for every rule that is at least the proposed one: wherever the grammar needs
+parentheses `inline` adds them -/
+theorem inline_parens_sound_of_fix (R : ParenRule) (hp : ∀ x ∈ originalParts, x ∈ R.parts)
+    (he : ∀ x ∈ fixExtra, x ∈ R.extra) (hd : R.dictRule = true) :
+    ∀ c ∈ allCtx, ∀ r ∈ allRhs, needsParens c r = true →
+      jediParens R r.type c.parent c.trailerNext c.dstar = true := by
+  intro c hc r hr h
+  exact jediParens_mono minimalFixedRule R hp he (fun _ => hd) _ _ _ _ (minimalFixedRule_sound c hc r hr h)
+
+/-- non-vacuity: the weakest rule of the proposed shape satisfies the hypotheses -/
+example : ∀ c ∈ allCtx, ∀ r ∈ allRhs, needsParens c r = true →
+    jediParens minimalFixedRule r.type c.parent c.trailerNext c.dstar = true :=
+  inline_parens_sound_of_fix minimalFixedRule (fun _ h => h) (fun _ h => h) rfl
+
+/-- FULL statement about the source: holds as soon as the translator finds the fixed shape
+(`fixedShape` is a closed Boolean over `Gen.C06`: `true` on a tree with the proposed fix, `false` on
+the original tree, where the statement is false - see `excluded_rows_are_counterexamples`) -/
+theorem inline_parens_sound (hfixed : fixedShape = true) :
+    ∀ c ∈ allCtx, ∀ r ∈ allRhs, needsParens c r = true →
+      jediParens rule r.type c.parent c.trailerNext c.dstar = true := by
+  unfold fixedShape at hfixed
+  simp only [Bool.and_eq_true, List.all_eq_true, List.contains_iff_mem] at hfixed
+  exact inline_parens_sound_of_fix rule hfixed.1.1 hfixed.1.2 hfixed.2
+
+/-- over the whole table: wherever the grammar needs parentheses `inline` adds them - except in
+the excluded rows (none for the fixed shape, the 20 rows above for the original source) -/
 theorem inline_parens_sound_partial :
     ∀ c ∈ allCtx, ∀ r ∈ allRhs, (c.name, r.type) ∉ excludedRows →
-      needsParens c r = true → jediParens parts r.type c.parent c.trailerNext = true := by
-  decide +kernel
+      needsParens c r = true → jediParens rule r.type c.parent c.trailerNext c.dstar = true := by
+  intro c hc r hr hn h
+  rw [← excluded_rows_exact] at hn
+  exact sound_outside_unsound rule c hc r hr hn h
 
-/-- every excluded row is a genuine counter-example on the model (F7: `ternary-*`/`test`,
-F8: `star-expr`/`or_test`, …); the harness replays each of them on the real code -/
+/-- every excluded row is a genuine counter-example on the model; the harness replays each of them
+on the real code -/
 theorem excluded_rows_are_counterexamples :
     ∀ p ∈ excludedRows, ∃ c ∈ allCtx, ∃ r ∈ allRhs, c.name = p.1 ∧ r.type = p.2 ∧
-      needsParens c r = true ∧ jediParens parts r.type c.parent c.trailerNext = false := by
+      needsParens c r = true ∧ jediParens rule r.type c.parent c.trailerNext c.dstar = false := by
+  rw [← excluded_rows_exact]
+  exact unsound_are_counterexamples rule
+
+/-- the original rule (no extra parent types, no `**` disjunct) has exactly the 20 unsound rows,
+whatever the source looks like now -/
+theorem original_rule_unsound_rows :
+    (unsoundPairs ⟨originalParts, [], false, false⟩).map rowName = excludedRowsOriginal := by
   decide +kernel
 
-/-- and they are exactly the unsound rows -/
-theorem excluded_rows_exact :
-    (unsoundPairs parts).map (fun p => (p.1.name, p.2.type)) = excludedRows := by
-  decide +kernel
-
-/-- the rule never depends on anything but the three facts the source inspects; inside an
-`EXPRESSION_PARTS` parent it always parenthesises (over-approximation, harmless) -/
-theorem inline_parens_in_expression_parts (rhsType parentType : String) (tn : Bool)
-    (h : parentType ∈ parts) : jediParens parts rhsType parentType tn = true := by
+/-- inside an `EXPRESSION_PARTS` parent the rule always parenthesises (over-approximation, harmless) -/
+theorem inline_parens_in_expression_parts (rhsType parentType : String) (tn ds : Bool)
+    (h : parentType ∈ parts) : jediParens rule rhsType parentType tn ds = true := by
   simp only [jediParens, Bool.or_eq_true, List.contains_iff_mem]
-  exact Or.inl (Or.inr h)
+  exact Or.inl (Or.inl (Or.inl (Or.inr h)))
+
+/-- for an attribute reference `obj.name` that is not followed by another trailer, the fixed source
+decides from the slot of `obj.name`; the original one from the trailer `.name`, i.e. never
+parenthesises unless the right-hand side is a bare tuple -/
+theorem attribute_reference_slot (d : DefInfo) (n : NameInfo) (hd : n.dotTrailer = true)
+    (hn : n.parentNext = false) (hpt : n.parentType = "trailer") :
+    refParens rule d n =
+      if Gen.C06.inlineParensAttributeSlot
+      then jediParens rule d.rhsType n.slotParentType n.slotParentNext n.slotPrevDstar
+      else jediParens rule d.rhsType "trailer" false n.prevDstar := by
+  unfold refParens
+  simp only [hd, hn, hpt, Bool.not_false, Bool.and_true]
 
 /-! ## extract: the extracted line goes *into* the prefix, everything else stays -/
 
@@ -156,6 +216,46 @@ theorem extract_replace_keys (ind : Str → Str → Str) (same : Bool) (node0 : 
           · left; exact hk
         · right; left; exact hk
     · right; right; exact hk
+
+/-- expression extraction (`remaining_prefix is None`) that inserts in front of another leaf keeps
+the WHOLE prefix of the replaced expression - line break, comment lines, indentation - in front of
+the replacement (`p = first_node_leaf.prefix`; the translator checks that this is what the source
+does: `Gen.C06.replaceNodePrefix`) -/
+theorem extract_replace_keeps_node_prefix (ind : Str → Str → Str) (node0 : Nat) (firstPfx : Str)
+    (insId : Nat) (insPfx insValue : Str) (rest : List Nat) (replacement extracted : Str) (m : Map)
+    (h : replaceMap ind false node0 firstPfx insId insPfx insValue rest replacement extracted none = some m)
+    (h1 : node0 ≠ insId) (h2 : node0 ∉ rest) :
+    m.get? node0 = some (firstPfx ++ replacement) := by
+  unfold replaceMap at h
+  split at h
+  · cases h
+  · simp only [Option.some.injEq, Bool.false_eq_true, ↓reduceIte] at h
+    subst h
+    rw [get_foldl_mset_other rest node0 h2, get_mset_other _ _ _ _ h1, get_mset_self]
+
+/-- the same case leaves the leaf it inserts before with its value and its whole prefix around the
+new line -/
+theorem extract_replace_insert_leaf (ind : Str → Str → Str) (node0 : Nat) (firstPfx : Str)
+    (insId : Nat) (insPfx insValue : Str) (rest : List Nat) (replacement extracted : Str) (m : Map)
+    (h : replaceMap ind false node0 firstPfx insId insPfx insValue rest replacement extracted none = some m)
+    (h2 : insId ∉ rest) :
+    ∃ pre last, insPfx = pre ++ last ∧
+      m.get? insId = some (pre ++ ind extracted last ++ ['\n'] ++ last ++ insValue) := by
+  unfold replaceMap at h
+  split at h
+  · cases h
+  · rename_i ep hep
+    simp only [Option.some.injEq, Bool.false_eq_true, ↓reduceIte] at h
+    subst h
+    obtain ⟨pre, last, hp, hr⟩ := extract_keeps_prefixes ind insPfx extracted ep hep
+    refine ⟨pre, last, hp, ?_⟩
+    rw [get_foldl_mset_other rest insId h2, get_mset_self, hr]
+
+example : (replaceMap (fun ex last => last ++ ex) false 5 "\n  # c\n  ".toList 2 [] "y".toList [] "k".toList
+    "k = 1".toList none).bind (·.get? 5) = some "\n  # c\n  k".toList := by decide
+
+/-- the translator found `p = first_node_leaf.prefix` in `_replace` -/
+theorem replace_source_shape : Gen.C06.replaceNodePrefix = "first_node_leaf.prefix" := by decide
 
 example : insertBefore (fun ex last => last ++ ex) ['\n', ' ', ' '] none ['e', '=', '1']
     = some ['\n', ' ', ' ', 'e', '=', '1', '\n', ' ', ' '] := by decide
